@@ -15,28 +15,30 @@ TRUST = ("Lean 4.33 kernel; axioms at most propext/Classical.choice/Quot.sound (
          "translate/batch_arith.py is trusted, and cross-checked by the correspondence); the container operations are a "
          "hand-written model (Model/Dataset.lean) tied to the C++ by the differential correspondence only (generator-bounded); ")
 MANIFEST = dict(
-  text=("Theorems (Props/C03.lean, 35 obligations, re-proved on every run against the regenerated batch arithmetic), for all element types, "
-        "sizes, batch sizes, partitions and operation histories: (A) the machine-translated optimalBatchSizes is, for n>0 and m>0, inside defined "
-        "arithmetic and returns ceil(n/m) batch sizes that sum to n, lie in [1,m] and differ by at most 1; for n=0 it is either undefined "
-        "(division by zero, finding F1) or empty (repaired source) -- which one holds is evaluated and reported on every run; the copy of the "
-        "arithmetic in createDataFromRange agrees with it. (B) createDataFromRange, repartition, splitBatch, splice, append, push_back, "
-        "indexedSubset, transform and reorderElements map the flat element sequence exactly as documented (identity / split / concatenation / "
-        "image / gather), keep shape and partitioning as documented, and reorderElements with a permutation (shuffle) preserves the multiset. "
-        "(C) for every partition into non-empty batches the DataElementIterator state machine makes elements(), element(i) (= begin+i), reverse "
-        "iteration and batches() yield the same sequence; ++/-- are mutually inverse across batch borders; batch sizes sum to numberOfElements. "
-        "(D) LabeledData: createLabeledDataFromRange, repartition, splitBatch, append, reorderElements keep inputs and labels in the same "
-        "partitioning and never separate an input from its label (pair j of the result is pair idx[j] of the source). (E) every finite history of "
-        "repartition / splitBatch / reorderElements-by-permutation steps preserves well-formedness, non-empty batches and the multiset of "
-        "(input,label) pairs, and in every reachable state the access paths agree. The model is tied to the real Data/LabeledData/DataView code "
-        "by an exact line-by-line correspondence over random operation histories (24 operation kinds incl. splitAtElement, splice, append, "
-        "indexed subsets + complements, shuffle with the observed permutation, repartitionByClass, binarySubProblem, oneVersusRest, element-/batch-wise "
-        "transform, DataView subset/toDataset/subBatch, signed iterator jumps) on unsigned, RealVector, CompressedRealVector and user-struct "
-        "elements under ASan/UBSan, plus an independent in-harness oracle that keeps a flat std::vector beside every dataset."),
-  note=TRUST + "covered by the correspondence and the oracle only (modelled, no theorem yet): advance(n) from an arbitrary position with negative n, "
-       "splitAtElement, indexedSubset complement as a partition, repartitionByClass (sortedness), binarySubProblem, DataView/toDataset, "
-       "transformLabels/Inputs pairing, histories that move elements between datasets; sharing of batches between datasets (shared_ptr) and the "
-       "storage layout of sparse batches are not modelled; WeightedDataset is not covered. Findings F1, F9, F10 (findings_proposed/C03.md) make "
-       "the check print VIOLATION on the unrepaired tree.",
+  text=("Theorems (Props/C03.lean, re-proved on every run against the regenerated batch arithmetic), for all element types, sizes, batch sizes, "
+        "partitions and operation histories: (A) the machine-translated optimalBatchSizes is, for n>0 and m>0, inside defined arithmetic and returns "
+        "ceil(n/m) batch sizes that sum to n, lie in [1,m] and differ by at most 1; for n=0 it is either undefined (division by zero, finding F1) "
+        "or empty (repaired source) -- which one holds is evaluated and reported on every run; the copy of the arithmetic in createDataFromRange "
+        "agrees with it. (B) createDataFromRange, repartition (incl. its element-by-element copy loop, proved equal to the abstract cut), splitBatch, "
+        "splice, append, push_back, indexedSubset (+ complement: a partition of the elements), transform and reorderElements map the flat element "
+        "sequence exactly as documented, keep shape and partitioning as documented; reorderElements with a permutation (shuffle) preserves the "
+        "multiset. (C) for every partition into non-empty batches the DataElementIterator state machine makes elements(), element(i), reverse "
+        "iteration and batches() yield the same sequence (Data and LabeledData); ++/-- are mutually inverse across batch borders; it += n lands on the "
+        "canonical (batch, offset) of p+n for every signed n; batch sizes sum to numberOfElements. (D) LabeledData: createLabeledDataFromRange, "
+        "repartition, splitBatch, splice, splitAtElement (first k pairs stay), append, indexedSubset, reorderElements, transformLabels/Inputs keep inputs "
+        "and labels in the same partitioning and never separate an input from its label. (E) every finite history of repartition / splitBatch / "
+        "reorderElements-by-permutation steps on one dataset, and of these plus splitAtElement / append / swap moving elements between two datasets, "
+        "preserves well-formedness, non-empty batches and the multiset of (input,label) pairs; in every reachable state the access paths agree. "
+        "(F) repartitionByClass, whenever it succeeds (any label multiset incl. absent classes), yields a permutation of the pairs gathered class by "
+        "class with ascending labels; DataView lists the dataset in order, subsets compose, toDataset(view) holds exactly the view's elements. "
+        "The model is tied to the real Data/LabeledData/DataView code by an exact line-by-line correspondence over random operation histories (24 "
+        "operation kinds incl. shuffle with the observed permutation, binarySubProblem, oneVersusRest, element-/batch-wise transform, signed iterator "
+        "jumps) on unsigned, RealVector, CompressedRealVector and user-struct elements under ASan/UBSan, plus an independent in-harness oracle that keeps "
+        "a flat std::vector beside every dataset."),
+  note=TRUST + "covered by the correspondence and the oracle only (modelled, no theorem): binarySubProblem, push_back/subc on LabeledData, "
+       "Data(size, element, batchSize) batch layout beyond its sum, shapes after transform; sharing of batches between datasets (shared_ptr) and the storage "
+       "layout of sparse batches are not modelled; WeightedDataset is not covered. Findings F1, F9, F10 (findings_proposed/C03.md) make the check print "
+       "VIOLATION on the unrepaired tree.",
   technique="Lean 4 proofs (induction over partitions and operation histories) on a model whose batch arithmetic is regenerated from the C++ "
             "on every run + differential correspondence with the real containers (ASan/UBSan)",
   design="§6 C03")
